@@ -20,6 +20,7 @@ func init() {
 		},
 		Assumptions: commonAssumptions,
 		Engines:     "PATH, WHO, TABLE, REG, CODEC, GUARD",
+		TagMatrix:   [][]string{{"integration"}},
 		Run:         runC13,
 	})
 }
